@@ -545,6 +545,37 @@ def header_alone_cases(tree, seed, tier):
     return cases
 
 
+def tree_growth_sessions(tree, seed, tier):
+    """The tree itself changes between two invocations: a unit header is added (a contributor adds
+    a unit; a branch is switched).  The same command - `--all-units`, with and without other
+    options, or an explicit list that names the new unit - is run before and after, and once more.
+    Whatever the generator remembers from the first run must not keep the new unit out."""
+    from . import addedunit
+
+    rng = rng_for(seed, "tree-growth")
+    out = []
+    shapes = [
+        ({"units": "ALL", "constants": [], "io": True}, {"units": "ALL", "constants": [], "io": True}),
+        ({"units": "ALL", "constants": "ALL", "io": False}, {"units": "ALL", "constants": "ALL", "io": False}),
+        ({"units": [tree.units[0]], "constants": [], "io": True}, {"units": [tree.units[0], addedunit.STEM], "constants": [], "io": True}),
+    ]
+    if tier != "quick":
+        shapes = shapes * 4
+    for n, (before, after) in enumerate(shapes):
+        env = {"listdir": {UNITS_DIR: _listdir_spec(rng), CONSTANTS_DIR: _listdir_spec(rng)}, "listdir_default": _listdir_spec(rng), "extra_entries": {}, "git": "ok:growth", "stdout_mode": "block", "stdout_bufsize": 4096, "crlf": False, "git_repo": "tracked", "clock": ["2026-09-26T12:00:00"]}
+        hs = HASHSEEDS[n % len(HASHSEEDS)]
+        invs = []
+        for k, (sel, added) in enumerate(((before, False), (after, True), (after, True))):
+            full = dict({"main_files": [], "version_id": "growth", "opt_order": ["units", "constants", "noio", "version"]}, **sel)
+            e = dict(env)
+            if added:
+                e["added_unit"] = True
+                full["added_unit"] = True
+            invs.append({"seed": seed, "run": "growth-%d/%d" % (n, k), "hashseed": hs, "selection": full, "env": e, "faults": [], "toolchain": {"a": list(all_toolchains()[n % 6])}, "probe": {"include_order": None, "api": []}})
+        out.append({"seed": seed, "run": "growth-%d" % n, "hashseed": hs, "session": invs})
+    return out
+
+
 def crash_sweep_sessions(tree, seed, tier):
     """Crash-consistency enumeration along the time axis: a fixed job is killed (or interrupted)
     at evenly spaced steps, then the very same command is run again - and once more.  Whatever
